@@ -478,6 +478,8 @@ func (p *provider) matchingVersionsWithPrereleases(ctx context.Context, req reso
 	if err != nil {
 		return nil, err
 	}
+	// The slice belongs to the client; filtering reorders its elements.
+	vs = slices.Clone(vs)
 	constraint, err := p.getConstraint(req)
 	if err != nil {
 		return nil, nil
@@ -591,6 +593,8 @@ func (p *provider) getDependencies(ctx context.Context, v resolve.VersionKey, ex
 	if err != nil {
 		return nil, err
 	}
+	// The slice belongs to the client; filtering reorders its elements.
+	deps = slices.Clone(deps)
 	// Filter according to any environment markers. In pip this happens
 	// earlier (and several layers further away from the resolver), see
 	// https://github.com/pypa/pip/blob/21.1.3/src/pip/_vendor/pkg_resources/__init__.py#L3026
